@@ -79,5 +79,17 @@ History of misses (each led to an extension, after which the change is caught):
   (deviation HelperRt = "ambient" is refuted by TLC) and its 216 executable cases are replayed on real threads.
 * S_C20c (an ask whose caller gave up is not counted in message_count): the C20 configurations had no timed operations, so no
   reply ever failed to be delivered -> stage c20t (askT / tellT with timeouts).
+* Round 6 (12 changes). Caught at once: S_C01d, S_C02d, S_C06d, S_C11d, S_C13d. Extensions made because of the others (some
+  before the change was first run, after reading its description):
+  S_C03d (a String notice sent through the type-erased reply channel of discarded asks: Ok(notice) when Reply = String) ->
+  the scripted actor answers odd-numbered requests through a second message type whose reply is a String;
+  S_C04d / S_C08d (an on_run that fails at its first poll with a backlog / while messages are queued) -> scripted on_run
+  invocations that return at their first poll (`arm`, model constant ArmRun) and the rules "handler / on_run after on_run
+  returned Err"; S_C07d (stop() on a full mailbox overtakes the queue through the control channel) -> the "accepted work not
+  finished" rule is tagged C07 as well as C01; S_C09d (blocking_tell(None) from spawn_blocking fails on a full mailbox) ->
+  Blocking.tla cases with a full mailbox and the rule "no Send error before a later acceptance" in a blocking stress stage
+  for C09; S_C10d (timeouts rounded down to whole milliseconds) -> wall-clock C10 stages in microseconds with fractional
+  timeouts; S_C14d (per-caller edge tokens: a stale callee-side guard removes the asker's next edge) -> model deviation
+  TokenedEdges = FALSE whose 13-step TLC counterexample is replayed into the code.
 """)
 print(len(rows), "seeds")
